@@ -420,10 +420,11 @@ def _std_model(ex, c, args, guard, site):
         if sc >= ec: return En(mk_int(0, 'isize'), {0: []}, 'Option'), T
         ex.write_ref(r, [], Agg([mk_int(sc + 1, ty), e_], rg_.kind))
         return En(mk_int(1, 'isize'), {1: [mk_int(sc, ty)]}, 'Option'), T
-    m = re.match(r'^RangeInclusive::<(%s)>::contains::<(%s)>$' % (INT, INT), c)
+    m = re.match(r'^(?:std::ops::)?(RangeInclusive|Range)::<(%s)>::contains::<(%s)>$' % (INT, INT), c)
     if m:
         rg_ = ex.deref(args[0]); x = ex.deref(args[1])
-        return BV(z3.And(rg_.f[0].t <= x.t, x.t <= rg_.f[1].t)), T
+        if m.group(1) == 'RangeInclusive': return bv_of(z3.And(rg_.f[0].t <= x.t, x.t <= rg_.f[1].t)), T
+        return bv_of(z3.And(rg_.f[0].t <= x.t, x.t < rg_.f[1].t)), T
     # ---- formatting: opaque (messages are not the subject)
     if (c.startswith('core::fmt::') or cs.startswith('Arguments::') or cs.startswith('std::fmt::Arguments') or cs in ('format', 'std::fmt::format', 'alloc::fmt::format')
             or cs.startswith('core::fmt::rt::') or cs.startswith('std::fmt::rt::') or cs.startswith('Argument::')
